@@ -63,6 +63,13 @@ func c16Schemas() (ast.Schemas, *symir.Gen) {
 			fields = append(fields, ast.NewStructField(name, ast.String()))
 			continue
 		}
+		if i > 0 {
+			// thorough: the second field ranges over every kind too, with plain leaves (no default / constraint of its own)
+			lean := *g
+			lean.Defaults, lean.Constraints = false, false
+			fields = append(fields, c16Field(&lean, name))
+			continue
+		}
 		fields = append(fields, c16Field(g, name))
 	}
 	p.AddObject(ast.NewObject("p", "S", ast.NewStruct(fields...)))
